@@ -746,7 +746,7 @@ private theorem quicReset_true : quicReset = true := quic_addresses_reset_spec
 private theorem step_shared (w : World) (op : Op) : (step w op).shared = w.shared := by
   unfold step
   rw [quicReset_true]
-  cases op <;> simp only [stepWith, setQuic] <;> (try rfl) <;> split <;> (try split) <;> simp
+  cases op <;> simp only [stepWith, setQuic, if_true] <;> (try rfl) <;> split <;> (try split) <;> (try simp) <;> (try simp_all)
 
 private theorem step_obj (w : World) (op : Op) (i : Nat) (o : Obj) (h : w.objs[i]? = some o) :
     (step w op).objs[i]? = some (if op.target = some i then objStep o op else o) := by
